@@ -1559,9 +1559,12 @@ func (self *_parser) reinterpretAsObjectAssignmentPattern(l *ast.ObjectLiteral) 
 				return &ast.BadExpression{From: l.Idx0(), To: l.Idx1()}
 			}
 			// TODO make sure there is no trailing comma
-			rest = prop.Expression
-			value = value[:i]
-			ok = true
+			switch prop.Expression.(type) {
+			case *ast.Identifier, *ast.DotExpression, *ast.PrivateDotExpression, *ast.BracketExpression:
+				rest = prop.Expression
+				value = value[:i]
+				ok = true
+			}
 		}
 		if !ok {
 			self.error(prop.Idx0(), "Invalid destructuring assignment target")
